@@ -121,4 +121,9 @@ theorem C08_stmts_BatchCollector_Commit : stmts_BatchCollector_Commit =
       "if err := br.batchedMuts.Commit(); err != nil", "return err", "end", "range i,:=br.writtenValuesCounter",
       "br.writtenValues[i].BatchWriteDone()", "end", "return nil"] := rfl
 
+open Hive.Gen.C08Stmts in
+/-- the helper the writer's timer relies on (runtime/timeutil): Stop, then a *non-blocking* drain -/
+theorem C08_stmts_CleanupTimer : stmts_CleanupTimer =
+    ["func func(t *time.Timer)", "t.Stop()", "select", "case <-t.C", "default", "end"] := rfl
+
 end Hive.BatchWriter
